@@ -79,12 +79,9 @@ func init() {
 		z := c.IntConst64(0)
 		return c.Ite(c.ILt(x, z), c.BVConst(^uint64(0), 64), c.Ite(c.ILt(z, x), c.BVConst(1, 64), c.BVConst(0, 64)))
 	})
-	reg(B+"Int64", func(w *Worker, fr *frame, a []Value, fn *ssa.Function) Value {
-		return w.ctx.Int2Bv(w.bigGet(a[0]), 64)
-	})
-	reg(B+"Uint64", func(w *Worker, fr *frame, a []Value, fn *ssa.Function) Value {
-		return w.ctx.Int2Bv(w.bigGet(a[0]), 64)
-	})
+	// Int64/Uint64: low 64 bits without int2bv, see intr_C30s.go (c30sLow64)
+	reg(B+"Int64", c30sLow64)
+	reg(B+"Uint64", c30sLow64)
 	reg(B+"String", func(w *Worker, fr *frame, a []Value, fn *ssa.Function) Value {
 		p := a[0].(PtrV)
 		if p.Obj == nil {
